@@ -1268,6 +1268,12 @@ class BlocksMap(Model):
             S.b_member, S.b_name = z3.BoolVal(True), kt
             S.bg, S.bi, S.bo = cntf(v.fields['_gates']), cntf(v.fields['_inputs']), cntf(v.fields['_outputs'])
             self.h.S = S
+            # aliasing: the member lists of the inserted block must be lists of its own - not the live list of another block /
+            # circuit (a BlockList / LabelList model of some heap) and not a list that exists since before the call
+            for fld in ('_gates', '_inputs', '_outputs'):
+                lst = v.fields[fld]
+                if isinstance(lst, (BlockList, LabelList)) or (isinstance(lst, VList) and lst.born < (getattr(it.ctx, 't_setup', None) or 0)):
+                    self.h.events.append(('block-shares-list', fld, type(lst).__name__))
         else:
             S = old.copy()
             S.b_member = z3.And(old.b_member, old.b_name != kt)     # a block of that name is replaced
